@@ -79,6 +79,17 @@ def strip(n):
     return n
 
 
+def decast(n):
+    """Copy of the tree with every explicit cast removed (for comparisons that should ignore integer widening)."""
+    if isinstance(n, list):
+        return [decast(x) for x in n]
+    if not isinstance(n, dict):
+        return n
+    if n.get("k") == "Cast" and n.get("c"):
+        return decast(n["c"][0])
+    return {k: decast(v) if isinstance(v, (dict, list)) else v for k, v in n.items()}
+
+
 def show(n, depth=0):
     """Canonical one-line rendering of an expression/statement tree (independent of layout,
     parentheses and line numbers).  Used both for AST equality and for reports."""
@@ -212,6 +223,21 @@ def meth(n):
     if n.get("k") == "Call" and isinstance(n.get("callee"), dict) and n["callee"].get("k") in ("DMem", "UMem", "Mem"):
         return n["callee"]["n"], n["callee"].get("b")
     return None, None
+
+
+import re as _re
+
+
+def simp(text):
+    """Remove implicit-conversion noise from a show() rendering: defaulted arguments, converting constructors of
+    std::string / std::filesystem::path, smart-pointer arrows and conversion operators."""
+    t = text.replace(", <default>", "")
+    t = _re.sub(r"(?:const )?std::(?:filesystem::path|string|basic_string<char>)\{([^{}]*)\}", r"\1", t)
+    t = _re.sub(r"\(->(\w+)\)", r"\1", t)
+    t = _re.sub(r"\.operator \w+\(\)", "", t)
+    t = _re.sub(r"\((?:std::)?(?:streampos|streamoff)\)", "", t)
+    t = _re.sub(r"std::(?:streampos|streamoff)\{([^{}]*)\}", r"\1", t)
+    return t
 
 
 def is_call_to(n, suffix):
